@@ -223,6 +223,8 @@ struct Alphabet {
     jobs: Vec<Job>,
     job_names: Vec<String>,
     subs: Vec<Sub>,
+    /// jobs whose tasks' dimensions were copied into a re-created multi job of the alphabet (kept alive on purpose)
+    _originals: Vec<Job>,
 }
 
 impl Alphabet {
@@ -230,6 +232,7 @@ impl Alphabet {
         let mut jobs = vec![];
         let mut job_names = vec![];
         let mut subs: Vec<Sub> = vec![];
+        let mut originals: Vec<Job> = vec![];
         for i in 0..singles {
             let id = format!("{name}-s{i}");
             let job = SingleBuilder::default()
@@ -255,13 +258,26 @@ impl Alphabet {
                 builder = builder.add_job(single);
             }
             let job = builder.build_as_job().expect("multi job");
+            // the last multi job of an alphabet with several of them is RE-CREATED from the tasks of the one just built, the
+            // way a problem transformation copies job properties (places and dimensions cloned, new `Multi`): its tasks must
+            // resolve to the new job, not to the job their dimensions were copied from (which stays alive next to it)
+            let job = if multis.len() > 1 && mi + 1 == multis.len() {
+                let original = job.to_multi().clone();
+                let copies: Vec<Arc<Single>> =
+                    original.jobs.iter().map(|s| Arc::new(Single { places: s.places.clone(), dimens: s.dimens.clone() })).collect();
+                let rebuilt = Job::Multi(vrp_core::models::problem::Multi::new_shared(copies, original.dimens.clone()));
+                originals.push(job);
+                rebuilt
+            } else {
+                job
+            };
             for single in job.to_multi().jobs.iter() {
                 subs.push(Sub { job: jobs.len(), single: single.clone() });
             }
             jobs.push(job);
             job_names.push(id);
         }
-        Self { name, jobs, job_names, subs }
+        Self { name, jobs, job_names, subs, _originals: originals }
     }
 
     fn job_index(&self, job: &Job) -> Option<usize> {
